@@ -162,6 +162,8 @@ def main(tier):
             chk.violation("reordering top-level declarations %s: %s | permuted document:\n%s" % (p, bad, text[:1200]),
                           {"kind": "perm", "doc": m["doc"], "perm": p, "base": base, "variant": text,
                            "observed_base": obs[bid], "observed_variant": obs[cid], "signature": sig}, sig)
+    import fixrel
+    fixrel.c10(chk, tier)
     if docs:
         chk.sample({"doc": docs[0]["doc"], "permutation": "reverse"})
     chk.rule = "pairs (document, permutation of its top-level blocks); distinct = distinct pairs; documents of >= 2 blocks"
@@ -171,6 +173,9 @@ def main(tier):
 
 def replay(path):
     rp = json.load(open(path))["replay"]
+    if rp.get("kind") in ("fxpair", "fxban"):
+        import fixrel
+        return fixrel.replay("C10", rp)
     chk = Check("C10", "quick")
     obs = harness("run", [rel.case("a", rp["base"]), rel.case("b", rp["variant"])])
     chk.evaluations = 1
